@@ -165,7 +165,7 @@ func init() {
 				items = append(items, specItems("C01", sp, bound, allStrats, tags, c01Oracle)...)
 			}
 			if tier == "thorough" {
-				items = append(allItems("C01", c01Oracle, nil, "empty", "incr", "incr-abort", "incr-abortdrop", "incr-cancel", "shutdown", "incr-write", "incr-getters", "two", "two-steps", "incr-refresh"), items...)
+				items = append(allItems("C01", c01Oracle, nil, "empty", "incr", "incr-abort", "incr-abortdrop", "cancel", "shutdown", "incr-write", "incr-getters", "two", "two-steps", "incr-refresh"), items...)
 			}
 			return items
 		},
